@@ -57,3 +57,19 @@ def sliceIdx (len : Int) (start stop : Option Int) : List Int :=
   arange a b
 
 end DI.Py
+
+namespace DI.Py
+
+/-- the effects of an outcome (expression statements, attribute / item stores, loops, yields), in order. -/
+def Out.effs : Out → List Term
+  | .ret e _ => e
+  | .raise e _ => e
+  | .fall e => e
+
+/-- `for colname, column in self.items(): yield colname, g(column)`: every column of the receiver, in dict order, goes
+    through one and the same expression `g`. -/
+def perColumn (g : Term → Term) : Term :=
+  Term.app "for" [Term.app "tuple" [Term.sym "colname", Term.sym "column"], Term.app ".items" [Term.sym "self"],
+    Term.app "block" [Term.app "yield" [Term.app "tuple" [Term.sym "colname", g (Term.sym "column")]]]]
+
+end DI.Py
